@@ -1,8 +1,10 @@
 (* C08 at trace level: the clauses of c08_check that hold on EVERY trace of the model -
      805  nothing is written to a connection after it was closed,
-     801  the first message written on a connection is a Logon or a Logout -
-   and machine-checked witnesses that the remaining clauses (802, 803, 804, 806) do NOT hold on every trace
-   (the two recorded findings drain-after-disconnect and queued-app-flushed-outside-logon). *)
+     801  the first message written on a connection is a Logon or a Logout (through the drain of buffered frames that
+          handleDisconnectState now performs BEFORE it closes: invariant RW, kept by every "handler, then setState" round) -
+   the former witnesses of 803 / 804 / 806 (finding drain-after-disconnect, repaired: they now pass; the clauses are proved
+   for every trace in C08QuietProofs.v) and the witness of the one clause that does NOT hold on every trace (802: an
+   application that sends a Logout-typed message itself). *)
 From Coq Require Import String.
 From Coq Require Import ZArith List Bool Lia.
 From QF Require Import Base.Bytes Session.Types Session.Model Session.Spec Session.C01Proofs Session.LocalProofs
@@ -315,55 +317,178 @@ Proof.
   - cbn. split; [reflexivity|]. split; [reflexivity|]. split; [reflexivity|]. split; [intros _; reflexivity | intros Hx; discriminate Hx].
 Qed.
 
-Lemma incoming_logon_acceptor c m :
-  s_st c = SLogon -> initiator c = false -> s_out_open c = true -> s_wire c = [] ->
-  let s' := incoming c m in
-  Forall lgm (s_wire s') /\ (s_wire s' = [] -> s_st s' = SLogon \/ is_connected (s_st s') = false).
+(* ---------- the first message of a connection, through the drain ---------- *)
+Lemma rev_head_lgm (w : list omsg) : Forall lgm w -> match rev w with [] => True | m :: _ => lgm m end.
 Proof.
-  intros Hst Hi Ho Hw s'. unfold s', incoming, incoming_with. rewrite Hst. cbn [is_connected negb].
-  destruct m as [mm|].
-  - cbn [state_fix_msg_in]. destruct (logon_state_fix_msg_in c mm) as [s1 next] eqn:E.
-    destruct (logon_state_acceptor c mm s1 next Hst Hi Ho E) as ((new & A1 & A2) & A3).
-    rewrite set_state_with_wire by exact nw_drain. rewrite s_st_set_state_with.
-    rewrite Hw, app_nil_r in A1. rewrite A1. split; [exact A2|].
-    intros Hn. right. destruct (is_connected next); [|reflexivity]. exfalso. apply (A3 eq_refl). rewrite A1. exact Hn.
-  - rewrite Hw. split; [constructor|]. intros _. left. exact Hst.
+  intros H. apply Forall_rev in H. destruct (rev w); [exact I|]. inversion H; assumption.
 Qed.
 
-Lemma step_logon_acceptor : forall s e, e <> EConnect ->
-  s_st s = SLogon -> initiator s = false -> s_out_open s = true ->
-  Forall lgm (s_wire (step s e)) /\ (s_wire (step s e) = [] -> s_st (step s e) = SLogon \/ is_connected (s_st (step s e)) = false).
+(* the chronologically first message written in this event, if any, is a Logon or a Logout *)
+Definition FirstOK (x : sess) : Prop := match rev (s_wire x) with [] => True | m :: _ => lgm m end.
+(* ... and while nothing has been written the session is an acceptor in logonState, or has disconnected *)
+Definition RW (x : sess) : Prop :=
+  Boundary x /\ FirstOK x
+  /\ (s_wire x = [] -> (s_st x = SLogon /\ initiator x = false) \/ is_connected (s_st x) = false).
+
+Lemma firstok_app (w new : list omsg) : w <> [] ->
+  match rev w with [] => True | m :: _ => lgm m end -> match rev (new ++ w) with [] => True | m :: _ => lgm m end.
 Proof.
-  intros s e Hne Hst0 Hi0 Ho0. unfold step.
+  intros Hne H. rewrite rev_app_distr. destruct (rev w) as [|m t] eqn:E.
+  - exfalso. apply Hne. apply (f_equal (@rev omsg)) in E. rewrite rev_involutive in E. exact E.
+  - exact H.
+Qed.
+
+Lemma boundary_same x s1 : Boundary x -> Same x s1 -> Boundary s1.
+Proof.
+  intros [B1 B2] (S1 & S2 & S3 & _ & _ & _ & _ & S8). split; intros H; rewrite S8 in H.
+  - rewrite S1, S2. apply B1; exact H.
+  - rewrite S1, S2, S3. apply B2; exact H.
+Qed.
+Lemma boundary_upd_st_connected x s1 next : Boundary x -> Same x s1 -> is_connected (s_st x) = true ->
+  is_connected next = true -> Boundary (upd_st s1 next).
+Proof.
+  intros [B1 _] (S1 & S2 & _) Hc Hn. split; cbn [s_st upd_st s_out_open s_in_open s_in_buf]; intros H; [|congruence].
+  rewrite S1, S2. apply B1; exact Hc.
+Qed.
+Lemma boundary_fin_dead s0 next : Boundary s0 -> is_connected (s_st s0) = false -> is_connected next = false -> Boundary (fin s0 next).
+Proof.
+  intros [_ B2] Hc Hn. destruct (B2 Hc) as (D1 & D2 & D3). unfold fin.
+  split; cbn [s_st upd_st]; intros H; [congruence|]. destruct (s_pending_stop s0); cbn; repeat split; assumption.
+Qed.
+Lemma boundary_fin_disconnect s0 next : is_connected next = false -> Boundary (fin (disconnect_now s0) next).
+Proof.
+  intros Hn. unfold fin. split; cbn [s_st upd_st]; intros H; [congruence|].
+  assert (Hd : s_out_open (disconnect_now s0) = false /\ s_in_open (disconnect_now s0) = false /\ s_in_buf (disconnect_now s0) = []).
+  { unfold disconnect_now. cbv zeta. cbn [s_out_open s_in_open s_in_buf upd_chan]. repeat split.
+    match goal with |- s_out_open (if s_out_open ?y then _ else _) = false => destruct (s_out_open y) eqn:E; [reflexivity | exact E] end. }
+  destruct Hd as (D1 & D2 & D3). destruct (s_pending_stop _); cbn; repeat split; assumption.
+Qed.
+Lemma boundary_pop x m r : Boundary x -> s_in_buf x = m :: r -> Boundary (upd_chan x (s_out_open x) (s_in_open x) r (s_closed x)).
+Proof.
+  intros [B1 B2] Eb. split; cbn [s_st upd_chan s_out_open s_in_open s_in_buf]; intros H.
+  - apply B1; exact H.
+  - destruct (B2 H) as (_ & _ & D3). rewrite D3 in Eb. discriminate.
+Qed.
+Lemma wire_fin s next : s_wire (fin s next) = s_wire s.
+Proof. unfold fin. destruct (s_pending_stop s); reflexivity. Qed.
+Lemma wire_disconnect_now s : s_wire (disconnect_now s) = s_wire s.
+Proof.
+  unfold disconnect_now. cbv zeta. cbn [s_wire upd_chan].
+  repeat match goal with |- context [if ?b then _ else _] => destruct b end; reflexivity.
+Qed.
+Lemma st_fin s next : s_st (fin s next) = next.
+Proof. reflexivity. Qed.
+
+(* one handler round keeps RW *)
+Lemma rw_msg x m s1 next : RW x -> is_connected (s_st x) = true -> state_fix_msg_in (s_st x) x m = (s1, next) ->
+  (is_connected next = true -> RW (upd_st s1 next)) /\ (is_connected next = false -> RW s1).
+Proof.
+  intros (Hb & Hf & Hq) Hc E.
+  pose proof (fr_state_fix_msg_in x _ _ _ _ _ E (same_refl x)) as Hs.
+  destruct (wire_grows_state_fix _ _ _ _ _ E) as (new & Hg).
+  assert (Hfirst : FirstOK s1 /\ (s_wire s1 = [] -> s_wire x = [])
+                   /\ (s_wire x = [] -> is_connected next = true -> s_wire s1 <> [])).
+  { destruct (s_wire x) as [|w0 wr] eqn:Ew.
+    - destruct (Hq eq_refl) as [[Hst Hi]|Hd]; [|congruence].
+      rewrite Hst in E. cbn [state_fix_msg_in] in E.
+      assert (Ho : s_out_open x = true) by (destruct Hb as [B1 _]; destruct (B1 Hc) as [H _]; exact H).
+      destruct (logon_state_acceptor x m s1 next Hst Hi Ho E) as ((nw & A1 & A2) & A3).
+      rewrite Ew, app_nil_r in A1. split; [unfold FirstOK; rewrite A1; apply rev_head_lgm; exact A2|].
+      split; [intros _; reflexivity | intros _ Hn; exact (A3 Hn)].
+    - split; [unfold FirstOK; rewrite Hg; apply firstok_app; [discriminate | unfold FirstOK in Hf; rewrite Ew in Hf; exact Hf]|].
+      split; [intros H0; rewrite Hg in H0; apply app_eq_nil in H0 as [_ H0]; discriminate H0 | intros X; discriminate X]. }
+  destruct Hfirst as (F1 & F2 & F3).
+  split; intros Hn.
+  - split; [eapply boundary_upd_st_connected; eassumption|]. split; [exact F1|].
+    cbn [s_wire upd_st s_st]. intros H0. exfalso. exact (F3 (F2 H0) Hn H0).
+  - split; [eapply boundary_same; eassumption|]. split; [exact F1|].
+    intros H0. destruct (Hq (F2 H0)) as [[Hst Hi]|Hd]; [|congruence].
+    destruct Hs as (_ & _ & _ & S4 & _ & _ & _ & S8). left. split; [congruence|]. unfold initiator in *. rewrite S4. exact Hi.
+Qed.
+
+Lemma rw_pop x m r : RW x -> s_in_buf x = m :: r -> RW (upd_chan x (s_out_open x) (s_in_open x) r (s_closed x)).
+Proof. intros (Hb & Hf & Hq) Eb. split; [eapply boundary_pop; eassumption|]. split; [exact Hf | exact Hq]. Qed.
+Lemma rw_dead s0 next : RW s0 -> is_connected (s_st s0) = false -> is_connected next = false -> True -> RW (fin s0 next).
+Proof.
+  intros (Hb & Hf & Hq) Hc Hn _. split; [apply boundary_fin_dead; assumption|].
+  unfold FirstOK. rewrite wire_fin. split; [exact Hf | intros _; right; exact Hn].
+Qed.
+Lemma rw_disc s0 next : RW s0 -> is_connected (s_st s0) = true -> is_connected next = false -> True -> RW (fin (disconnect_now s0) next).
+Proof.
+  intros (Hb & Hf & Hq) Hc Hn _. split; [apply boundary_fin_disconnect; assumption|].
+  unfold FirstOK. rewrite wire_fin, wire_disconnect_now. split; [exact Hf | intros _; right; exact Hn].
+Qed.
+
+Lemma rw_set_state s1 next : is_connected (s_st s1) = true ->
+  (is_connected next = true -> RW (upd_st s1 next)) -> (is_connected next = false -> RW s1) -> RW (set_state s1 next).
+Proof.
+  intros Hc H1 H2. apply (rounds_set_state RW (fun _ => True)); try assumption.
+  - exact rw_pop.
+  - intros x m s2 n Hp Hx E Hn. exact (proj1 (rw_msg x m s2 n Hp Hx E) Hn).
+  - intros x m s2 n Hp Hx E Hn. split; [exact (proj2 (rw_msg x m s2 n Hp Hx E) Hn) | exact I].
+  - exact rw_dead.
+  - exact rw_disc.
+  - intros Hn. split; [exact (H2 Hn) | exact I].
+Qed.
+Lemma rw_incoming x m : RW x -> RW (incoming x m).
+Proof.
+  intros Hp. apply (rounds_incoming RW (fun _ => True)); try assumption.
+  - exact rw_pop.
+  - intros y mm s2 n Hy Hx E Hn. exact (proj1 (rw_msg y mm s2 n Hy Hx E) Hn).
+  - intros y mm s2 n Hy Hx E Hn. split; [exact (proj2 (rw_msg y mm s2 n Hy Hx E) Hn) | exact I].
+  - exact rw_dead.
+  - exact rw_disc.
+Qed.
+
+(* one event from an acceptor in logonState that has written nothing on this connection: the first thing written, in this
+   event, is a Logon or a Logout - whatever the buffered frames make the session do afterwards - and if nothing is
+   written the session is still in logonState or has disconnected *)
+Lemma step_logon_acceptor : forall s e, e <> EConnect -> Boundary s ->
+  s_st s = SLogon -> initiator s = false ->
+  FirstOK (step s e)
+  /\ (s_wire (step s e) = [] -> (s_st (step s e) = SLogon /\ initiator (step s e) = false) \/ is_connected (s_st (step s e)) = false).
+Proof.
+  intros s e Hne Hb0 Hst0 Hi0. unfold step.
   assert (Hst : s_st (clear_logs s) = SLogon) by exact Hst0.
   assert (Hi : initiator (clear_logs s) = false) by exact Hi0.
-  assert (Ho : s_out_open (clear_logs s) = true) by exact Ho0.
+  assert (Hb : Boundary (clear_logs s)) by exact Hb0.
   assert (Hw : s_wire (clear_logs s) = []) by reflexivity.
   set (c := clear_logs s) in *. clearbody c.
+  assert (Hrw : RW c).
+  { split; [exact Hb|]. split; [unfold FirstOK; rewrite Hw; exact I | intros _; left; split; assumption]. }
+  assert (Hc : is_connected (s_st c) = true) by (rewrite Hst; reflexivity).
+  assert (Hplain : forall x, s_wire x = [] -> s_st x = SLogon -> initiator x = false ->
+            FirstOK x /\ (s_wire x = [] -> (s_st x = SLogon /\ initiator x = false) \/ is_connected (s_st x) = false)).
+  { intros x X1 X2 X3. split; [unfold FirstOK; rewrite X1; exact I | intros _; left; split; assumption]. }
+  assert (Hlg : forall x, LGr c x -> FirstOK x /\ (s_wire x = [] -> (s_st x = SLogon /\ initiator x = false) \/ is_connected (s_st x) = false)).
+  { intros x Hx. destruct (Hx Hst) as (A1 & _ & A3 & new & A4 & A5). rewrite Hw, app_nil_r in A4.
+    split; [unfold FirstOK; rewrite A4; apply rev_head_lgm; exact A5|].
+    intros _. left. split; [exact A1|]. unfold initiator in *. rewrite A3. exact Hi. }
   destruct e; cbn [step_event].
   - exfalso. apply Hne. reflexivity.
-  - destruct (_ && _); cbn [s_wire s_st upd_chan]; rewrite Hw; (split; [constructor | intros _; left; exact Hst]).
-  - destruct (negb (s_in_open c)); [rewrite Hw; split; [constructor | intros _; left; exact Hst]|].
-    destruct (s_in_buf c) as [|m r]; [rewrite Hw; split; [constructor | intros _; left; exact Hst]|].
-    apply incoming_logon_acceptor; assumption.
-  - apply incoming_logon_acceptor; assumption.
-  - apply incoming_logon_acceptor; assumption.
-  - rewrite Hst. cbn [is_connected]. rewrite set_state_wire. unfold set_state. rewrite s_st_set_state_with, Hw.
-    split; [constructor | intros _; right; reflexivity].
+  - destruct (_ && _); apply Hplain; assumption.
+  - destruct (negb (s_in_open c)); [apply Hplain; assumption|].
+    destruct (s_in_buf c) as [|m r] eqn:Eb; [apply Hplain; assumption|].
+    destruct (rw_incoming _ m (rw_pop c m r Hrw Eb)) as (_ & R2 & R3). split; assumption.
+  - destruct (rw_incoming c (Some m) Hrw) as (_ & R2 & R3). split; assumption.
+  - destruct (rw_incoming c None Hrw) as (_ & R2 & R3). split; assumption.
+  - rewrite Hc.
+    destruct (rw_set_state c SLatent Hc) as (_ & R2 & R3); [intros X; discriminate X | intros _; exact Hrw | split; assumption].
   - rewrite Hst.
     assert (Ht : exists next, state_timeout SLogon c e = (c, next) /\ (next = SLogon \/ next = SLatent)).
     { destruct e; cbn [state_timeout]; eexists; split; try reflexivity; auto. }
-    destruct Ht as (next & -> & Hn). rewrite set_state_wire. unfold set_state. rewrite s_st_set_state_with, Hw.
-    split; [constructor | intros _]. destruct Hn as [-> | ->]; [left | right]; reflexivity.
-  - destruct (lg_queue_for_send c c t [] body None ok (lg_refl c) Hst) as (A1 & _ & _ & new & A4 & A5).
-    rewrite Hw, app_nil_r in A4. rewrite A4. split; [exact A5 | intros _; left; exact A1].
-  - rewrite Hst. cbn [is_logged_on]. cbn [drop_queued s_wire s_st upd_to_send]. rewrite Hw.
-    split; [constructor | intros _; left; exact Hst].
-  - cbn [s_st upd_flags]. rewrite Hst. cbn [state_stop]. rewrite set_state_wire. unfold set_state. rewrite s_st_set_state_with.
-    cbn [s_wire upd_flags]. rewrite Hw. split; [constructor | intros _; right; reflexivity].
-  - rewrite Hst. cbn [is_connected].
-    destruct (lg_send_logon c c true None (lg_refl c) Hst) as (A1 & _ & _ & new & A4 & A5).
-    rewrite Hw, app_nil_r in A4. rewrite A4. split; [exact A5 | intros _; left; exact A1].
+    destruct Ht as (next & -> & Hn).
+    destruct (rw_set_state c next Hc) as (_ & R2 & R3); [| intros _; exact Hrw | split; assumption].
+    intros Hcn. destruct Hn as [-> | ->]; [|discriminate Hcn].
+    split; [eapply boundary_upd_st_connected; [exact Hb | apply same_refl | exact Hc | reflexivity]|].
+    split; [unfold FirstOK; cbn [s_wire upd_st]; rewrite Hw; exact I | intros _; left; split; [reflexivity | exact Hi]].
+  - apply Hlg. apply lg_queue_for_send, lg_refl.
+  - rewrite Hst. cbn [is_logged_on]. apply Hplain; assumption.
+  - cbn [s_st upd_flags]. rewrite Hst. cbn [state_stop].
+    set (c0 := upd_flags c (s_sent_reset c) (s_hb c) true (s_stopped c)).
+    assert (Hrw0 : RW c0) by exact Hrw.
+    destruct (rw_set_state c0 SLatent Hc) as (_ & R2 & R3); [intros X; discriminate X | intros _; exact Hrw0 | split; assumption].
+  - rewrite Hc. apply Hlg. apply lg_send_logon, lg_refl.
 Qed.
 
 (* ---------- c08_scan, one event at a time ---------- *)
@@ -495,11 +620,6 @@ Qed.
 Lemma initiator_step s e : initiator (step s e) = initiator s.
 Proof. unfold initiator. rewrite (step_cfg (s_cfg s) s e eq_refl). reflexivity. Qed.
 
-Lemma rev_head_lgm (w : list omsg) : Forall lgm w -> match rev w with [] => True | m :: _ => lgm m end.
-Proof.
-  intros H. apply Forall_rev in H. destruct (rev w); [exact I|]. inversion H; assumption.
-Qed.
-
 Lemma c08_step_inv : forall k s e, C08Inv k s ->
   (forall x, In x (c08_event_codes k e (obs_of (step s e))) -> ~ In x [801; 805])
   /\ C08Inv (c08_next k e (obs_of (step s e))) (step s e).
@@ -514,7 +634,7 @@ Proof.
   (* facts about this event *)
   assert (Facts :
     (k_connected (c08_k0 k e) = true \/ s_wire s' = [])
-    /\ (k_first_sent (c08_k0 k e) = true \/ Forall lgm (s_wire s'))
+    /\ (k_first_sent (c08_k0 k e) = true \/ FirstOK s')
     /\ k_connected (c08_k0 k e) && negb (s_closed s') = s_out_open s'
     /\ (k_connected (c08_k0 k e) = true -> k_first_sent (c08_k0 k e) = false -> s_wire s' = [] ->
         (s_st s' = SLogon \/ is_connected (s_st s') = false) /\ initiator s' = false)).
@@ -525,12 +645,12 @@ Proof.
         assert (Hc : is_connected (s_st s) = true) by (rewrite <- Hoc, <- Hk; reflexivity).
         assert (Es : s' = clear_logs s) by (apply step_connect_connected; exact Hc).
         rewrite Es. cbn [clear_logs s_wire s_closed s_out_open upd_chan upd_logs s_st].
-        split; [left; exact Ek|]. split; [right; constructor|]. split; [rewrite Ek, <- Hk; reflexivity|].
+        split; [left; exact Ek|]. split; [right; exact I|]. split; [rewrite Ek, <- Hk; reflexivity|].
         intros _ Hfs _. destruct (Hf eq_refl Hfs) as [A1 A2]. split; [left; exact A1 | exact A2].
       + assert (Hc : is_connected (s_st s) = false) by (rewrite <- Hoc, <- Hk; reflexivity).
         destruct (step_connect_new s Hc) as (A1 & A2 & A3 & A4 & A5). fold s' in A1, A2, A3, A4, A5.
         cbn [k_connected k_first_sent]. split; [left; reflexivity|]. split.
-        { right. destruct (initiator s) eqn:Ei; [apply A5; reflexivity | rewrite (A4 eq_refl); constructor]. }
+        { right. unfold FirstOK. destruct (initiator s) eqn:Ei; [apply rev_head_lgm, A5; reflexivity | rewrite (A4 eq_refl); exact I]. }
         split; [rewrite A1, A2; reflexivity|].
         intros _ _ Hw. split; [left; exact A3|].
         unfold s'. rewrite initiator_step. destruct (initiator s); [|reflexivity].
@@ -546,18 +666,18 @@ Proof.
       { destruct (k_first_sent k) eqn:Efs; [left; reflexivity | right].
         destruct (k_connected k) eqn:Ek.
         - destruct (Hf eq_refl eq_refl) as [A1 A2].
-          apply (step_logon_acceptor s e Hne A1 A2). rewrite <- Hk; reflexivity.
+          apply (step_logon_acceptor s e Hne Hb A1 A2).
         - destruct (step_closed_writes_nothing s e Hne) as [A1 _]; [rewrite <- Hk; reflexivity|].
-          fold s' in A1. rewrite A1. constructor. }
+          fold s' in A1. unfold FirstOK. rewrite A1. exact I. }
       split; [rewrite Hk; symmetry; exact Hch|].
       intros Ek Efs Hw. destruct (Hf Ek Efs) as [A1 A2].
-      destruct (step_logon_acceptor s e Hne A1 A2) as [_ A3]; [rewrite <- Hk; exact Ek|].
-      split; [apply A3; exact Hw|]. unfold s'. rewrite initiator_step. exact A2. }
+      destruct (step_logon_acceptor s e Hne Hb A1 A2) as [_ A3]. fold s' in A3.
+      split; [destruct (A3 Hw) as [[B1 _]|B1]; [left | right]; exact B1|]. unfold s'. rewrite initiator_step. exact A2. }
   destruct Facts as (F1 & F2 & F3 & F4).
   split.
   - apply event_codes_free.
     + destruct F1 as [F1|F1]; [left; exact F1 | right]. rewrite Hwire, F1. reflexivity.
-    + destruct F2 as [F2|F2]; [left; exact F2 | right]. rewrite Hwire. apply rev_head_lgm. exact F2.
+    + destruct F2 as [F2|F2]; [left; exact F2 | right]. rewrite Hwire. exact F2.
   - split; [exact Hb'|]. unfold c08_next. cbv zeta. cbn [k_connected k_first_sent].
     destruct (wire_fold_state (ob_wire o) (c08_kw (c08_k0 k e) o)) as [W1 W2].
     split; [rewrite Hclosed; exact F3|].
@@ -618,7 +738,7 @@ Proof.
   intros k s (_ & H & _). exact H.
 Qed.
 
-(* ---------- the clauses that do NOT hold on every trace: machine-checked witnesses ---------- *)
+(* ---------- examples: the former witnesses of 803 / 804 / 806, and the clause that does NOT hold on every trace (802) ---------- *)
 Definition c08_ex_cfg (r : role) : cfg :=
   {| c_role := r; c_begin := 2; c_sender := B "S"; c_target := B "T"; c_reset_on_logon := false; c_reset_on_logout := false;
      c_reset_on_disconnect := false; c_refresh_on_logon := false; c_chunk := 0; c_hb := 30; c_hb_override := false;
@@ -639,21 +759,28 @@ Definition c08_ex_resend_request (seq b e : Z) : minput :=
 Definition c08_trace_check (c : cfg) (es : list event) : list failure :=
   c08_check (combine es (map obs_of (run_trace es (init_sess c)))).
 
-(* 806 (finding drain-after-disconnect): an acceptor in logonState with a Logon buffered in messageIn processes a
-   non-Logon frame: it disconnects (no logout notification is due), then drainMessageIn handles the buffered Logon in the
-   old state: OnLogon on a closed connection, never followed by OnLogout *)
+(* Former witness of 806 (finding drain-after-disconnect, repaired: handleDisconnectState drains messageIn BEFORE it notifies
+   and closes): an acceptor in logonState with a Logon buffered in messageIn processes a non-Logon frame.  The buffered
+   Logon is now handled first, in logonState, with the channel open: FromAdmin, ToAdmin, OnLogon, then OnLogout and the
+   close.  The whole predicate passes. *)
 Definition c08_ex_806 : list event :=
   [EConnect; EArrive (c08_ex_msg T_LOGON 1); EIncoming (c08_ex_msg (B "D") 1)].
-Lemma c08_ex_806_run : c08_trace_check (c08_ex_cfg Acceptor) c08_ex_806 = [(2%nat, 806)].
+Lemma c08_ex_806_run : c08_trace_check (c08_ex_cfg Acceptor) c08_ex_806 = [].
 Proof. vm_compute. reflexivity. Qed.
 
-(* 803 and 804 (same finding, F17): logged on; an application message 3 and a Logout 4 are buffered when Logout 2 is
-   processed: OnLogout, close, then the drain hands message 3 to FromApp after the logout notification and notifies
-   OnLogout a second time *)
+(* Former witness of 803 and 804 (same finding, F17): logged on; an application message 3 and a Logout 4 are buffered when
+   Logout 2 is processed.  Message 3 is now handed to FromApp and Logout 4 is answered BEFORE the one logout notification;
+   the whole predicate passes. *)
 Definition c08_ex_803_804 : list event :=
   [EConnect; EIncoming (c08_ex_msg T_LOGON 1); EArrive (c08_ex_msg (B "D") 3); EArrive (c08_ex_msg T_LOGOUT 4);
    EIncoming (c08_ex_msg T_LOGOUT 2)].
-Lemma c08_ex_803_804_run : c08_trace_check (c08_ex_cfg Acceptor) c08_ex_803_804 = [(4%nat, 803); (4%nat, 804)].
+Lemma c08_ex_803_804_run : c08_trace_check (c08_ex_cfg Acceptor) c08_ex_803_804 = [].
+Proof. vm_compute. reflexivity. Qed.
+(* the callbacks of its last event, in order: FromAdmin ToAdmin (Logout 2), FromApp (3), FromAdmin ToAdmin (Logout 4), OnLogout *)
+Lemma c08_ex_803_804_order :
+  map (fun c => match c with CbFromApp _ _ _ _ => 1 | CbFromAdmin _ _ _ => 2 | CbToAdmin _ => 4 | CbOnLogout => 6 | _ => 0 end)
+      (rev (s_cbs (last (run_trace c08_ex_803_804 (init_sess (c08_ex_cfg Acceptor))) (init_sess (c08_ex_cfg Acceptor)))))
+  = [2; 4; 1; 2; 4; 6].
 Proof. vm_compute. reflexivity. Qed.
 
 (* 802: the finding queued-app-flushed-outside-logon was repaired (b6d3b39): a replay no longer flushes what was queued outside
@@ -665,19 +792,13 @@ Definition c08_ex_802 : list event :=
 Lemma c08_ex_802_run : c08_trace_check (c08_ex_cfg Acceptor) c08_ex_802 = [(5%nat, 802)].
 Proof. vm_compute. reflexivity. Qed.
 
-Lemma c08_806_refuted : exists c es, free_of [806] (c08_check (combine es (map obs_of (run_trace es (init_sess c))))) = false.
-Proof. exists (c08_ex_cfg Acceptor), c08_ex_806. vm_compute. reflexivity. Qed.
-Lemma c08_804_refuted : exists c es, free_of [804] (c08_check (combine es (map obs_of (run_trace es (init_sess c))))) = false.
-Proof. exists (c08_ex_cfg Acceptor), c08_ex_803_804. vm_compute. reflexivity. Qed.
-Lemma c08_803_refuted : exists c es, free_of [803] (c08_check (combine es (map obs_of (run_trace es (init_sess c))))) = false.
-Proof. exists (c08_ex_cfg Acceptor), c08_ex_803_804. vm_compute. reflexivity. Qed.
 Lemma c08_802_refuted : exists c es, free_of [802] (c08_check (combine es (map obs_of (run_trace es (init_sess c))))) = false.
 Proof. exists (c08_ex_cfg Acceptor), c08_ex_802. vm_compute. reflexivity. Qed.
 
 (* the proved clauses are not vacuous: both examples above write on the wire, connect and close, and pass 801 / 805 *)
 Lemma c08_ex_nontrivial :
   let tr := run_trace c08_ex_803_804 (init_sess (c08_ex_cfg Acceptor)) in
-  map (fun s => length (s_wire s)) tr = [0; 1; 0; 0; 1]%nat /\ map s_closed tr = [false; false; false; false; true].
+  map (fun s => length (s_wire s)) tr = [0; 1; 0; 0; 2]%nat /\ map s_closed tr = [false; false; false; false; true].
 Proof. vm_compute. split; reflexivity. Qed.
 
 (* the hypotheses of step_logon_acceptor on a concrete state, and a step that does something *)
